@@ -43,6 +43,7 @@ PROPS["C01"] = dict(
     level_text="Every ingredient the correct-rounding theorems rest on is a discharged obligation: each of the 651 Lemire "
                "rows, every integer power table, every Clinger limit (safety direction), SWAR digit kernels on full "
                "domains. The end-to-end rounding theorems themselves are listed as assumptions.",
+    verus_quick=[_vc("pf_lemire_mul")],
     rows_quick=["pf-lemire-table", "pf-lemire-constants", "pf-int-powers", "pf-limits"],
     assumptions=FLOAT_THEOREMS,
 )
